@@ -227,3 +227,24 @@ Proof.
   intros. eexists. split; [vm_compute; reflexivity|].
   unfold eval_dnf, eval_conj, eval_cond, pe. simpl. destruct (base 7); reflexivity.
 Qed.
+
+(* ------------------------------------------------------------------ *)
+(* sub-query selection: two sub-queries, two relations                 *)
+(* ------------------------------------------------------------------ *)
+Definition ws_sel : subsel := [fun k => match k with 0 => [0; 1; 2] | 1 => [0; 1] | _ => [] end].
+Definition ws_ops : list (list nat * list (list nat)) := [([0], [[0; 1]]); ([0; 1], [[2]; [0]])].
+
+Lemma ws_wf : sel_wf [0; 1] ws_sel.
+Proof.
+  intros m sq [<-|[]] [<-|[<-|[]]]; discriminate.
+Qed.
+
+Lemma ws_ops_ok : Forall (op_ok [0; 1]) ws_ops.
+Proof.
+  constructor; [|constructor; [|constructor]]; (split; [simpl; intros sq H; intuition | reflexivity]).
+Qed.
+
+(* only the combination (2, 1) survives *)
+Example ws_filters : rel_filters ws_ops ws_sel = true /\
+  rel_filters (ws_ops ++ [([1], [[1]])]) ws_sel = false.
+Proof. split; vm_compute; reflexivity. Qed.
